@@ -31,6 +31,8 @@ impl Elem for u8 { const FLOAT: bool = false; }
 impl Elem for f64 { const FLOAT: bool = true; }
 /// only used by the part-2 streams (types back to back, extreme magnitudes): the crate computes in f64 and casts once
 impl Elem for f32 { const FLOAT: bool = true; const EPS: f64 = f32::EPSILON as f64; const MINPOS: f64 = f32::MIN_POSITIVE as f64; }
+/// only used by the round-5 band sweeps of the sequences (whole-number bounds of every magnitude below 2^53, never negative)
+impl Elem for u64 { const FLOAT: bool = false; }
 
 const TYPES: [&str; 4] = ["i32", "i64", "u8", "f64"];
 
@@ -194,6 +196,37 @@ fn macro_dims<T: Numeric>(which: &str, d: &[usize]) -> Option<Result<Array<T>, A
         ("rand", 1) => array_rand!(T, d[0]), ("rand", 2) => array_rand!(T, d[0], d[1]), ("rand", 3) => array_rand!(T, d[0], d[1], d[2]),
         _ => return None,
     })
+}
+
+/// the constructor macros with IMPURE argument expressions: argument j is `{ log.push(j); it.next().unwrap() }` where `it` yields the
+/// values of the case line followed by sentinels — every argument expression must be evaluated exactly once, in reading order (a macro
+/// that repeats `$n` in its expansion builds another array and logs the argument twice).  Returns the array and the evaluation log.
+fn macro_impure<T: Elem>(which: &str, d: &[usize], extra: &[i64]) -> Option<(Result<Array<T>, ArrayError>, Vec<usize>, usize)> {
+    let log = std::cell::RefCell::new(Vec::<usize>::new());
+    let vals: Vec<usize> = d.iter().copied().chain([91usize, 92, 93]).collect();
+    let it = std::cell::RefCell::new(vals.into_iter());
+    macro_rules! arg { ($j:expr) => {{ log.borrow_mut().push($j); let v = it.borrow_mut().next().unwrap(); v }} }
+    // (the scalar arguments of full / arange come from `extra`, drawn by the same discipline)
+    let xs: Vec<i64> = extra.iter().copied().chain([91i64, 92, 93]).collect();
+    let xit = std::cell::RefCell::new(xs.into_iter());
+    macro_rules! xarg { ($j:expr) => {{ log.borrow_mut().push($j); let v = xit.borrow_mut().next().unwrap(); T::of_f(v as f64) }} }
+    let r = match (which, d.len(), extra.len()) {
+        ("zeros", 1, 0) => array_zeros!(T, arg!(0)), ("zeros", 2, 0) => array_zeros!(T, arg!(0), arg!(1)), ("zeros", 3, 0) => array_zeros!(T, arg!(0), arg!(1), arg!(2)),
+        ("ones", 1, 0) => array_ones!(T, arg!(0)), ("ones", 2, 0) => array_ones!(T, arg!(0), arg!(1)), ("ones", 3, 0) => array_ones!(T, arg!(0), arg!(1), arg!(2)),
+        ("rand", 1, 0) => array_rand!(T, arg!(0)), ("rand", 2, 0) => array_rand!(T, arg!(0), arg!(1)), ("rand", 3, 0) => array_rand!(T, arg!(0), arg!(1), arg!(2)),
+        ("full", _, 1) => array_full!(T, { log.borrow_mut().push(0); d.to_vec() }, xarg!(1)),
+        ("eye", 1, 0) => array_eye!(T, arg!(0)), ("eye", 2, 0) => array_eye!(T, arg!(0), arg!(1)), ("eye", 3, 0) => array_eye!(T, arg!(0), arg!(1), arg!(2)),
+        ("identity", 1, 0) => array_identity!(T, arg!(0)),
+        ("arange", 0, 2) => array_arange!(T, xarg!(0), xarg!(1)), ("arange", 0, 3) => array_arange!(T, xarg!(0), xarg!(1), xarg!(2)),
+        _ => return None,
+    };
+    let arity = if which == "full" { 2 } else { d.len() + extra.len() };
+    let l = log.borrow().clone();
+    Some((r, l, arity))
+}
+/// `None` = every argument expression was evaluated exactly once, in reading order
+fn impure_fault(log: &[usize], arity: usize) -> Option<String> {
+    if log.iter().copied().eq(0..arity) { None } else { Some(format!("the macro evaluated its {arity} argument expression(s) in the order {log:?} (each exactly once, in reading order, is required: an argument expression may have side effects)")) }
 }
 
 fn rand_verdict<T: Elem>(r: Result<Array<T>, ArrayError>, expected: &str) -> Verdict {
@@ -362,7 +395,10 @@ fn whole(s: &str) -> Option<i64> { s.parse::<i64>().ok() }
 /// "the base raised to evenly spaced exponents": compare with base^(linspace_i) natively
 fn logspace_stmt_check<T: Elem>(el: &[T], sv: f64, tv: f64, bf: f64, ep: bool) -> Option<(String, String)> {
     let num = el.len();
-    if num >= 2 {
+    // base^start or base^stop outside the normal range of the element type (the crate forms both before anything else, so an overflowing
+    // `base^stop` spoils every position even when the endpoint is left out): only the bit-exact expression comparison applies there
+    let in_range = |x: f64| { let w = T::of_f(bf.powf(x)).f(); w.is_finite() && w.abs() >= T::MINPOS };
+    if num >= 2 && in_range(sv) && in_range(tv) {
         let d = (num - ep as usize) as f64;
         for i in 0..num {
             let x = sv + (i as f64) * (tv - sv) / d;
@@ -445,7 +481,19 @@ fn run<T: Elem>(op: &str, a: &[&str], expected: &str) -> Option<Verdict> {
                 Err(_) => cmp("panic".into()),
                 // beyond the i64 scope the exact rationals of the model are converted by the big-integer division (another half ulp)
                 Ok(r) => {
-                    let v = seq_verdict(r, expected, (if small_args(&a[..2]) { 4.0 } else { 8.0 }) * ulp_scale(s.abs().max(t.abs())) * (T::EPS / f64::EPSILON), false, e.unwrap_or(true));
+                    // an INTEGRAL GRID below 2^53 (whole bounds, whole step, every sample a whole number below 2^53 in magnitude): the quotient
+                    // (stop - start) / d, every product i * step and every sum start + i * step are exact in f64, so the model's exact
+                    // answer is the required one bit for bit at EVERY position (no tolerance)
+                    let exact_grid = match (whole(a[0]), whole(a[1])) {
+                        (Some(s0), Some(t0)) => {
+                            let d = n.unwrap_or(50).saturating_sub(e.unwrap_or(true) as usize) as i128;
+                            let (lim, span) = (1i128 << 53, t0 as i128 - s0 as i128);
+                            d > 0 && (s0 as i128).abs() < lim && (t0 as i128).abs() < lim && span.abs() < lim && span % d == 0
+                        }
+                        _ => false,
+                    };
+                    if exact_grid { GRID_EXACT.with(|c| c.set(c.get() + 1)); }
+                    let v = seq_verdict(r, expected, (if small_args(&a[..2]) { 4.0 } else { 8.0 }) * ulp_scale(s.abs().max(t.abs())) * (T::EPS / f64::EPSILON), exact_grid, e.unwrap_or(true));
                     if let (Verdict::Match(_), Some(s0), Some(t0)) = (&v, whole(a[0]), whole(a[1])) {
                         if let (Some((cnt, _, f)), Some(want)) = (nat_linspace(s0, t0, n, e), parse_rat_answer(expected)) {
                             if cnt != want.len() || (0..cnt).any(|i| !same_f64(f(i), want[i])) {
@@ -498,6 +546,37 @@ fn run<T: Elem>(op: &str, a: &[&str], expected: &str) -> Option<Verdict> {
             cmp(guarded(|| res_arr_t(&match (m, k) { (None, _) => array_eye!(T, n), (Some(m), None) => array_eye!(T, n, m), (Some(m), Some(k)) => array_eye!(T, n, m, k) })))
         }
         "m_identity" => { let n: usize = a[0].parse().ok()?; cmp(guarded(|| res_arr_t(&array_identity!(T, n)))) }
+        // ---- the macros again, with impure argument expressions (evaluation count and order are part of the observation)
+        "mi_zeros" | "mi_ones" | "mi_rand" | "mi_full" | "mi_eye" | "mi_identity" | "mi_arange" => {
+            let which = &op[3..];
+            let (d, extra): (Vec<usize>, Vec<i64>) = match which {
+                "full" => (parse_usize_list(a[0]), vec![a[1].parse().ok()?]),
+                "eye" => (std::iter::once(a[0].parse::<usize>().ok()).chain([opt_usize(a[1])?, opt_usize(a[2])?]).flatten().collect(), vec![]),
+                "identity" => (vec![a[0].parse().ok()?], vec![]),
+                "arange" => (vec![], a.iter().filter(|x| **x != "none").map(|x| x.parse::<i64>().ok()).collect::<Option<Vec<_>>>()?),
+                _ => (parse_usize_list(a[0]), vec![]),
+            };
+            if which == "eye" && a[1] == "none" && a[2] != "none" { return None }
+            IMPURE.with(|c| c.set(c.get() + 1));
+            match try_run(|| macro_impure::<T>(which, &d, &extra)) {
+                Err(_) => cmp("panic".into()),
+                Ok(None) => None,
+                Ok(Some((r, log, arity))) => {
+                    let fault = impure_fault(&log, arity);
+                    let v = match which {
+                        "rand" => rand_verdict(r, expected),
+                        "arange" => seq_verdict(r, expected, 0.0, true, false),
+                        _ => compare_default(res_arr_t(&r), expected),
+                    };
+                    Some(match (v, fault) {
+                        (Verdict::Mismatch { observed, detail }, Some(f)) => Verdict::Mismatch { observed, detail: format!("{detail}; {f}") },
+                        (Verdict::Mismatch { observed, detail }, None) => Verdict::Mismatch { observed, detail },
+                        (_, Some(f)) => Verdict::Mismatch { observed: format!("evaluation log {log:?}"), detail: f },
+                        (v, None) => v,
+                    })
+                }
+            }
+        }
         _ => None,
     }
 }
@@ -747,6 +826,10 @@ thread_local! {
     static ORA_NONE: std::cell::Cell<u64> = const { std::cell::Cell::new(0) };
     static SEQ_OK: std::cell::Cell<u64> = const { std::cell::Cell::new(0) };
     static GIANT: std::cell::Cell<u64> = const { std::cell::Cell::new(0) };
+    /// linspace cases on an integral grid below 2^53, judged bit for bit at every position
+    static GRID_EXACT: std::cell::Cell<u64> = const { std::cell::Cell::new(0) };
+    /// macro calls with impure argument expressions (evaluation count and order observed)
+    static IMPURE: std::cell::Cell<u64> = const { std::cell::Cell::new(0) };
     static GIANT_MS: std::cell::Cell<u64> = const { std::cell::Cell::new(0) };
 }
 
@@ -934,7 +1017,7 @@ fn exec_giant(op: &str, args: &[&str], expected: &str) -> Option<Verdict> {
     let (ty, a) = args.split_first()?;
     let t0 = std::time::Instant::now();
     let v = match *ty {
-        "i32" => giant_p::<i32>(op, a), "i64" => giant_p::<i64>(op, a), "u8" => giant_p::<u8>(op, a), "f64" => giant_p::<f64>(op, a), "f32" => giant_p::<f32>(op, a),
+        "i32" => giant_p::<i32>(op, a), "i64" => giant_p::<i64>(op, a), "u8" => giant_p::<u8>(op, a), "f64" => giant_p::<f64>(op, a), "f32" => giant_p::<f32>(op, a), "u64" => giant_p::<u64>(op, a),
         "i8v" => giant_v::<i8>(op, a), "i16v" => giant_v::<i16>(op, a), "i32v" => giant_v::<i32>(op, a), "i64v" => giant_v::<i64>(op, a),
         "isizev" => giant_v::<isize>(op, a), "u8v" => giant_v::<u8>(op, a), "u16v" => giant_v::<u16>(op, a), "u32v" => giant_v::<u32>(op, a),
         "u64v" => giant_v::<u64>(op, a), "usizev" => giant_v::<usize>(op, a), "f32v" => giant_v::<f32>(op, a), "f64v" => giant_v::<f64>(op, a),
@@ -948,7 +1031,7 @@ fn exec_giant(op: &str, args: &[&str], expected: &str) -> Option<Verdict> {
 fn exec_report(args: &[&str], expected: &str) -> Option<Verdict> {
     if expected != "ok report" { return Some(compare_default("harness: a report line expects the driver to answer `ok report`".into(), expected)); }
     let (ok, none, seq, giant, ms, big) = (ORA_OK.with(|c| c.get()), ORA_NONE.with(|c| c.get()), SEQ_OK.with(|c| c.get()), GIANT.with(|c| c.get()), GIANT_MS.with(|c| c.get()), BIG_CHECKS.with(|c| c.get()));
-    let text = format!("ok report: native reference = model on {ok} structural cases (no opinion {none}), native sequence formulas = model on {seq} cases, {giant} giant cases judged in place ({:.1} s), {big} big-division checks", ms as f64 / 1000.0);
+    let text = format!("ok report: native reference = model on {ok} structural cases (no opinion {none}), native sequence formulas = model on {seq} cases, {giant} giant cases judged in place ({:.1} s), {big} big-division checks, {} integral linspace grids judged bit for bit", ms as f64 / 1000.0, GRID_EXACT.with(|c| c.get()));
     if args.first() == Some(&"final") && (ok < 1000 || seq < 300) {
         return Some(Verdict::Mismatch { observed: text, detail: "the native reference was relied upon without having been compared with the model on at least 1000 structural and 300 sequence cases of this run".into() });
     }
@@ -1008,7 +1091,7 @@ fn exec_case(op: &str, args: &[&str], expected: &str) -> Option<Verdict> {
     let v = exec_case0(op, args, expected);
     // the native reference of the giant cases is compared with the model's full answer on every ordinary case
     if let (Some(Verdict::Match(_)) | Some(Verdict::Open(_)), Some((_, rest))) = (&v, args.split_first()) {
-        if let Some(d) = validate_oracle(op, rest, expected) {
+        if let Some(d) = validate_oracle(&op.replace("mi_", "m_"), rest, expected) {
             return Some(Verdict::Mismatch { observed: "ORACLE-VS-MODEL".into(), detail: format!("ORACLE-VS-MODEL {d} (harness defect: the native reference is not usable)") });
         }
     }
@@ -1023,6 +1106,7 @@ fn exec_case0(op: &str, args: &[&str], expected: &str) -> Option<Verdict> {
         "u8" => run::<u8>(op, rest, expected),
         "f64" => run::<f64>(op, rest, expected),
         "f32" => run::<f32>(op, rest, expected),
+        "u64" => run::<u64>(op, rest, expected),
         "i8v" => run_v::<i8>(op, rest, expected), "i16v" => run_v::<i16>(op, rest, expected), "i32v" => run_v::<i32>(op, rest, expected), "i64v" => run_v::<i64>(op, rest, expected),
         "isizev" => run_v::<isize>(op, rest, expected), "u8v" => run_v::<u8>(op, rest, expected), "u16v" => run_v::<u16>(op, rest, expected), "u32v" => run_v::<u32>(op, rest, expected),
         "u64v" => run_v::<u64>(op, rest, expected), "usizev" => run_v::<usize>(op, rest, expected), "f32v" => run_v::<f32>(op, rest, expected), "f64v" => run_v::<f64>(op, rest, expected),
@@ -1591,6 +1675,223 @@ fn gen_streams3(out0: &mut dyn FnMut(String), rng: &mut Rng, thorough: bool) {
     let _ = rng;
 }
 
+// ------------------------------------------------------------------------------------------------ robustness streams, part 5 (round 5)
+
+/// the exact decimal rational `n` / `n/d` of a finite f64 — the way a non-integer (or huge, or tiny) float crosses the language boundary
+fn fx(v: f64) -> String {
+    if v == 0.0 { return "0".into() }
+    let bits = v.abs().to_bits();
+    let (e, frac) = (((bits >> 52) & 0x7ff) as i32, (bits & ((1u64 << 52) - 1)) as i64);
+    let (m, ex) = if e == 0 { (frac, -1074) } else { (frac | (1i64 << 52), e - 1075) };
+    dy(if v < 0.0 { -m } else { m }, ex)
+}
+fn next_up(v: f64) -> f64 { f64::from_bits(v.to_bits() + 1) }       // (positive finite arguments only)
+fn next_down(v: f64) -> f64 { f64::from_bits(v.to_bits() - 1) }
+
+fn gen_streams5(out0: &mut dyn FnMut(String), rng: &mut Rng, thorough: bool) {
+    let out = &mut |l: String| out0(match l.strip_prefix("n ") { Some(r) => format!("n_{r}"), None => l });
+    let ends = ["none", "true", "false"];
+    let p2 = |k: u32| 1i128 << k;
+    let p10 = |k: u32| 10i128.pow(k);
+    let lim = p2(53);
+    // a whole number that the element type holds exactly (so that the model and the crate are given the same argument)
+    let fits = |ty: &str, v: i128| -> bool {
+        (v as f64) as i128 == v && match ty {
+            "i64" => v >= i64::MIN as i128 && v <= i64::MAX as i128, "u64" => v >= 0 && v < p2(64), "i32" => v >= i32::MIN as i128 && v <= i32::MAX as i128,
+            "u8" => (0..=255).contains(&v), "f32" => v.abs() < p2(120) && (v as f32) as i128 == v, _ => true }
+    };
+    const ALLT: [&str; 6] = ["i64", "f64", "u64", "i32", "f32", "u8"];
+    let mut rot = 0usize;
+    // `want` of the eligible element types, the 64-bit ones (i64 / f64 / u64) first, rotating
+    let mut pick_types = |vals: &[i128], want: usize| -> Vec<&'static str> {
+        rot += 1;
+        let el: Vec<&'static str> = ALLT.iter().copied().filter(|ty| vals.iter().all(|&v| fits(ty, v))).collect();
+        let wide: Vec<&'static str> = el.iter().copied().filter(|t| ["i64", "f64", "u64"].contains(t)).collect();
+        let mut r: Vec<&'static str> = vec![];
+        if !wide.is_empty() { r.push(wide[rot % wide.len()]); }
+        for j in 0..el.len() { if r.len() >= want { break } let t = el[(rot + j) % el.len()]; if !r.contains(&t) { r.push(t); } }
+        r
+    };
+
+    // ---- (21) band sweeps of the sequence constructors: whole-number start / stop / step of EVERY magnitude with a small count.
+    // An offset i * step (or a bound, or a span) computed in a narrower integer or in f32 is right for every argument of the small
+    // scope and wraps / rounds once it reaches 2^16, 2^24, 2^31, 2^32.  Everything here is a whole number below 2^53, so f64
+    // arithmetic is exact and the model's exact answer is demanded bit for bit at every position.
+    let mut steps: Vec<i128> = vec![1, 2, 3, 7, 10];
+    for k in [8u32, 15, 16, 23, 24, 30, 31, 32, 33, 40, 47, 52] { steps.extend([p2(k) - 1, p2(k), p2(k) + 1]); }
+    for k in [2u32, 3, 5, 6, 8, 9, 10, 12, 15] { steps.push(p10(k)); }
+    steps.sort(); steps.dedup();
+    let starts: Vec<i128> = vec![0, 1, -1, 7, 255, -256, 65535, -65537, p2(24) + 1, -p2(31), p2(31) - 1, p2(32) - 1, p2(32), -p2(32) - 1, p10(10), -p10(12), p2(52)];
+    let base_n = [2usize, 3, 5, 6, 11, 17, 33, 60];
+    // (a) linspace on integral grids: start, step, count -> stop
+    for (si, &s) in starts.iter().enumerate() { for (di, &d0) in steps.iter().enumerate() { for (gi, sg) in [1i128, -1].into_iter().enumerate() {
+        if !thorough && (si + di + gi) % 2 == 1 && !(d0 < p2(33) && d0 >= p2(22)) { continue }
+        let d = d0 * sg;
+        let mut ns: Vec<usize> = vec![base_n[(si + di) % 8], base_n[(si + 3 * di + 3 + gi) % 8]];
+        // the first count at which the last offset (n - 1) * |step| reaches 2^16 / 2^24 / 2^31 / 2^32, and the count before it
+        for th in [16u32, 24, 31, 32] {
+            let need = (p2(th) + d0 - 1) / d0;
+            if (1..=300).contains(&need) { ns.push(need as usize + 1); if need >= 2 { ns.push(need as usize); } }
+        }
+        ns.sort(); ns.dedup();
+        for (ni, &n) in ns.iter().enumerate() {
+            let e = ends[(si + di + ni) % 3];
+            let ep = (e != "false") as i128;
+            if n as i128 - ep < 1 { continue }
+            let t = s + d * (n as i128 - ep);
+            if s.abs() >= lim || t.abs() >= lim || (t - s).abs() >= lim { continue }
+            for ty in pick_types(&[s, t], 2) { out(format!("linspace {ty} {s} {t} {n} {e}")); }
+        }
+    } } }
+    // (b) linspace between every two members of the value pool {0, +-1, +-2^k, +-(2^k +- 1), +-10^k} (the step is a fraction in general:
+    // exact first / last, interior within 4 ulp of the larger bound), incl. the exactly representable magnitudes beyond 2^53
+    let mut pool: Vec<i128> = vec![0, 1, -1];
+    for k in [8u32, 16, 24, 31, 32, 33, 40, 52] { for v in [p2(k) - 1, p2(k), p2(k) + 1] { pool.push(v); pool.push(-v); } }
+    for k in [3u32, 6, 9, 10, 12, 15] { pool.push(p10(k)); pool.push(-p10(k)); }
+    let mut wide_pool = pool.clone();
+    for v in [p2(53), p2(54), p2(60), 3 * p2(60), p2(62), p10(18)] { wide_pool.push(v); wide_pool.push(-v); }
+    let pair_n = ["2", "3", "4", "5", "7", "11", "none"];
+    for (i, &s) in wide_pool.iter().enumerate() { for (j, &t) in wide_pool.iter().enumerate() {
+        if s == t || (!thorough && (i * 7 + j * 3) % 2 == 1 && !((t - s).abs() >= p2(31) && (t - s).abs() < p2(40))) { continue }
+        let n = pair_n[(i + 2 * j) % 7];
+        let e = ends[(i + j) % 3];
+        for ty in pick_types(&[s, t], 1) { out(format!("linspace {ty} {s} {t} {n} {e}")); }
+    } }
+    // (c) arange: every (start, stop, step) of pool x pool x steps with 1..300 terms
+    let mut k3 = 0usize;
+    for &s in &pool { for &t in &pool { for &d in &steps {
+        let a = t + 1 - s;
+        if a <= 0 { continue }
+        let cnt = a / d;
+        if !(1..=300).contains(&cnt) || a >= lim || s.abs() >= lim || t.abs() >= lim || (s + cnt * d).abs() >= lim { continue }
+        k3 += 1;
+        // the band in which a 32-bit offset wraps is kept whole, the rest is thinned out in the quick tier
+        let band = a >= p2(31) && d < p2(33);
+        if !thorough && !band && k3 % 3 != 0 { continue }
+        let op = if k3 % 5 == 0 { "m_arange" } else { "arange" };
+        for ty in pick_types(&[s, t, d], if band { 2 } else { 1 }) { out(format!("{op} {ty} {s} {t} {d}")); }
+    } } }
+    // (d) arange on grids: start, step, count -> stop = start + count * step - 1 (+ step - 1: the largest stop with the same count)
+    for (si, &s) in starts.iter().enumerate() { for (di, &d) in steps.iter().enumerate() {
+        let mut cs: Vec<i128> = vec![[1i128, 2, 3, 6, 17, 60][(si + di) % 6]];
+        for th in [16u32, 24, 31, 32] {
+            let need = (p2(th) + d - 1) / d;       // the first index whose offset reaches 2^th
+            if (1..=300).contains(&need) { cs.push(need + 1); cs.push(need); }
+        }
+        cs.sort(); cs.dedup();
+        for (ci, &c) in cs.iter().enumerate() {
+            let t = s + c * d - 1 + if (si + di + ci) % 2 == 0 { 0 } else { d - 1 };
+            if s.abs() >= lim || t.abs() + 1 >= lim || (t + 1 - s) >= lim { continue }
+            for ty in pick_types(&[s, t, d], 1) { out(format!("arange {ty} {s} {t} {d}")); }
+        }
+    } }
+    // (e) beyond 2^53 with exactly representable terms (multiples of 2^(k-3)): the count formula and the running sum stay exact
+    for k in [53u32, 55, 60, 62] { for ty in ["i64", "f64", "u64"] {
+        let (s, d) = (p2(k), p2(k - 3));
+        out(format!("arange {ty} {s} {} {d}", s + 5 * d)); out(format!("arange {ty} 0 {} {d}", s)); out(format!("linspace {ty} {s} {} 6 none", s + 5 * d)); out(format!("linspace {ty} 0 {s} 9 true"));
+        if ty != "u64" { out(format!("arange {ty} -{s} {} {d}", 3 * d)); out(format!("linspace {ty} -{s} {s} 5 none")); }
+    } }
+    // geometric / logarithmic sequences over the same spans (ratio 2 / 10 / 2^16 over more than 2^32)
+    for ty in ["i64", "f64", "u64", "f32"] {
+        for (s, t, n) in [(1i128, p2(40), 41usize), (1, p10(15), 16), (p2(31), p2(33), 3), (p2(16), p2(48), 3), (p10(9), p10(12), 4), (p2(52), 1, 53), (p2(32) + 1, p2(32) - 1, 2), (3, 3 * p2(34), 18)] {
+            if !fits(ty, s) || !fits(ty, t) { continue }
+            for e in ends { out(format!("geomspace {ty} {s} {t} {n} {e}")); }
+        }
+        for (s, t, n, b) in [(0, 40, 41, "2"), (0, 15, 16, "none"), (31, 33, 3, "2"), (32, 52, 6, "2"), (9, 12, 4, "none"), (0, 20, 6, "3")] { for e in ends { out(format!("logspace {ty} {s} {t} {n} {e} {b}")); } }
+    }
+
+    // ---- (16) dense boundary sweeps in the value pools of the float kernel (`powf` in logspace / geomspace / vander): ONE exact magic
+    // value (an integral exponent, a mathematical constant as the base, a power of two next to the subnormal range) is enough for a
+    // fast path to be wrong.  Judged bit for bit by the model's expression evaluated natively (and by the statement's own oracle).
+    // (a) every integer-valued exponent -1100..=1100 (logspace computes base^start and base^stop), bases 2, 10, 3
+    for k in -1100i64..=1100 {
+        out(format!("logspace f64 {k} {} 2 false 2", k + 1));
+        if k.abs() <= 330 || k % 7 == 0 { out(format!("logspace f64 {k} {} 2 false none", k + 1)); }
+        if k.abs() <= 700 && k % 3 == 0 { out(format!("logspace f64 {} {k} 3 none 3", k - 2)); }
+        if (-160..=140).contains(&k) { out(format!("logspace f32 {k} {} 2 false 2", k + 1)); }
+        if (0..=62).contains(&k) { out(format!("logspace i64 {k} {k} 1 none 2")); out(format!("logspace u64 {k} {} 2 none 2", k + 1)); }
+        // (b) every integer-valued bound of a geometric sequence (both of one sign)
+        if k >= 1 { out(format!("geomspace f64 {k} {} 2 false", k + 1)); if k % 4 == 0 { out(format!("geomspace f64 {} {k} 3 none", k + 3)); } }
+        if k <= -2 { out(format!("geomspace f64 {k} {} 2 false", k + 1)); }
+    }
+    // (c) the mathematical constants, their reciprocals and negatives, as bounds (the common ratio of `1 .. c` over one step is c itself)
+    // and as exponents
+    use std::f64::consts as fc;
+    let consts = [fc::E, fc::PI, fc::LN_2, fc::LN_10, fc::LOG2_E, fc::LOG10_E, fc::LOG2_10, fc::LOG10_2, fc::SQRT_2, fc::FRAC_1_SQRT_2, fc::FRAC_PI_2, fc::FRAC_PI_3, fc::FRAC_PI_4,
+                  fc::FRAC_PI_6, fc::FRAC_PI_8, fc::FRAC_1_PI, fc::FRAC_2_PI, fc::FRAC_2_SQRT_PI, fc::TAU, 0.5, 1.5, 0.1, 1.0 / 3.0];
+    for c0 in consts { for c in [c0, 1.0 / c0] {
+        let (x, x2, xn, one) = (fx(c), fx(c * c), fx(-c), "1");
+        for n in ["2", "3", "4"] { for e in ["none", "false"] { out(format!("geomspace f64 {one} {x} {n} {e}")); } }
+        out(format!("geomspace f64 {x} {one} 2 false")); out(format!("geomspace f64 {x} {x2} 2 false")); out(format!("geomspace f64 {x} {x2} 3 none")); out(format!("geomspace f64 -1 {xn} 3 false")); out(format!("geomspace f64 {xn} -1 2 true"));
+        out(format!("geomspace f32 {one} {} 3 false", fx(c as f32 as f64)));
+        for b in ["2", "none", "3"] { out(format!("logspace f64 0 {x} 2 none {b}")); out(format!("logspace f64 {x} {} 3 false {b}", fx(2.0 * c))); out(format!("logspace f64 {xn} {x} 3 none {b}")); }
+    } }
+    // (d) powers of two 2^k, k = -1074..=1023, with one ulp on each side, as bounds of a geometric sequence (the f64 exponent-range edges
+    // — the smallest subnormal, MIN_POSITIVE, MAX — are the ends of this sweep)
+    for k in -1074i32..=1023 {
+        let v = if k >= -1022 { f64::from_bits(((k + 1023) as u64) << 52) } else { f64::from_bits(1u64 << (k + 1074)) };
+        let x = fx(v);
+        out(format!("geomspace f64 {x} 1 2 false")); out(format!("geomspace f64 1 {x} 3 false"));
+        let up = next_up(v);
+        if up.is_finite() { out(format!("geomspace f64 {} {}", if k % 2 == 0 { format!("{} 1 2", fx(up)) } else { format!("1 {} 3", fx(up)) }, "false")); }
+        if k > -1074 { let dn = fx(next_down(v)); out(format!("geomspace f64 {} {}", if k % 2 == 0 { format!("1 {dn} 3") } else { format!("{dn} 1 2") }, "false")); }
+    }
+    for v in [f64::MAX, f64::MAX / 2.0, f64::MIN_POSITIVE, f64::EPSILON, 1.0 - f64::EPSILON / 2.0, 1.0 + f64::EPSILON] {
+        let x = fx(v);
+        for n in ["1", "2", "3"] { for e in ends { out(format!("geomspace f64 {x} 1 {n} {e}")); out(format!("geomspace f64 1 {x} {n} {e}")); out(format!("geomspace f64 -{x} -1 {n} {e}")); } }
+    }
+    // the f32 range: 2^k, k = -149..=127, with one f32 ulp on each side
+    for k in -149i32..=127 {
+        let v = if k >= -126 { f32::from_bits(((k + 127) as u32) << 23) } else { f32::from_bits(1u32 << (k + 149)) };
+        out(format!("geomspace f32 {} 1 2 false", fx(v as f64))); out(format!("geomspace f32 1 {} 3 false", fx(v as f64)));
+        let up = f32::from_bits(v.to_bits() + 1);
+        if up.is_finite() { out(format!("geomspace f32 1 {} 2 false", fx(up as f64))); }
+        if k > -149 { out(format!("geomspace f32 {} 1 3 false", fx(f32::from_bits(v.to_bits() - 1) as f64))); }
+    }
+    // (e) vander: every integer value -1100..=1100 as the base of a power (powers 0..5, all exact), powers of 2 / 3 / 7 / 10 up to 2^53
+    let ints: Vec<i64> = (-1100..=1100).collect();
+    for (ci, ch) in ints.chunks(50).enumerate() {
+        let v = format!("{}:{}", ch.len(), show_list(ch));
+        out(format!("vander i64 {v} 3 none")); out(format!("vander f64 {v} 6 {}", ["true", "false", "none"][ci % 3])); out(format!("vander i32 {v} 3 true")); out(format!("vander f32 {v} 2 none"));
+    }
+    for ty in ["i64", "f64", "u64"] {
+        out(format!("vander {ty} 1:2 53 true")); out(format!("vander {ty} 1:2 53 none")); out(format!("vander {ty} 2:3,1 33 true")); out(format!("vander {ty} 3:10,0,1 16 false")); out(format!("vander {ty} 2:7,5 19 true"));
+        let pw: Vec<i64> = (0..=26).map(|k| 1i64 << k).collect();
+        out(format!("vander {ty} {}:{} 3 none", pw.len(), show_list(&pw)));
+        if ty != "u64" { out(format!("vander {ty} 1:-2 53 none")); out(format!("vander {ty} 2:-3,-7 19 true")); out(format!("vander {ty} {}:{} 3 true", pw.len(), show_list(&pw.iter().map(|x| -x).collect::<Vec<_>>()))); }
+    }
+    out("vander u8 3:2,1,0 8 true".to_string()); out("vander u8 4:3,5,15,6 3 none".to_string()); out("vander i32 2:2,-2 31 true".to_string()); out("vander f32 2:2,-2 25 none".to_string());
+
+    // ---- (19) the constructor macros with IMPURE argument expressions: each evaluated exactly once, in reading order
+    for ty in ["i32", "i64", "u8", "f64", "f32", "u64"] {
+        for sh in ["3", "2,3", "2,3,4", "0", "4,0,2", "1,1,7"] { for m in ["zeros", "ones", "rand"] { out(format!("mi_{m} {ty} {sh}")); } }
+        for (sh, v) in [("2,3", 5), ("-", 7), ("4", 0), ("2,0", 1)] { out(format!("mi_full {ty} {sh} {v}")); }
+        for l in ["3 none none", "0 none none", "1 none none", "6 none none", "3 5 none", "5 3 none", "0 4 none", "4 2 1", "2 2 0", "3 7 6", "3 3 3"] { out(format!("mi_eye {ty} {l}")); }
+        for n in [0, 1, 4, 9] { out(format!("mi_identity {ty} {n}")); }
+        for l in ["0 5 none", "2 11 3", "5 5 none", "0 9 2", "7 3 1", "0 200 100"] { out(format!("mi_arange {ty} {l}")); }
+    }
+
+    // ---- (20) results above 2^24 elements for the CHEAP constructors on a one-byte element type (a count taken through f32 is exact up to
+    // 16 777 216): one or two cases per operation, judged in place by the harness-native reference
+    let g24 = (1usize << 24) + 1;
+    for l in [format!("zeros u8v {}", g24 + 2), format!("ones u8v 4097,4099"), format!("full u8v 3,{} 5", g24 / 3 + 2), format!("m_full u8v {g24} 6"), format!("m_zeros u8v 2,{}", (1 << 23) + 1), format!("m_ones u8v {}", g24 + 1),
+              format!("full_like u8v {} 4", tag_off(&[2, (1 << 23) + 1], 1)), format!("zeros_like u8v {}", tag_off(&[g24], 1)), format!("ones_like u8v {}", tag_off(&[4099, 4099], 1)),
+              "eye u8v 4099 4099 3".to_string(), "eye u8v 3 5592407 5592405".to_string(), "identity u8v 4097".to_string(), "tri u8v 4097 4099 -1".to_string(), "tri u8v 5592407 3 -5592405".to_string(),
+              format!("tril u8v {} 4", tag_off(&[4099, 4099], 1)), format!("triu u8v {} -1", tag_off(&[2, 2897, 2897], 1)), format!("tril_plus_triu u8v {} 2", tag_off(&[4097, 4099], 1)),
+              format!("diag u8v {} 0", tag_off(&[4097], 1)), format!("diag u8v {} 1", tag_off(&[4099, 4099], 1)), format!("diagflat u8v {} -1", tag_off(&[17, 241], 1)),
+              "vander u8 m2x8388609 2 true".to_string(), format!("rand u8 {g24}"), format!("rand f32 2,{}", (1 << 23) + 1)] {
+        out(format!("n {l}"));
+    }
+    if thorough {
+        for l in [format!("zeros i8v 3,{}", g24 / 3 + 2), format!("full u8v {} 9", g24 + 4), format!("ones_like u8v {}", tag_off(&[g24 + 2], 1)), "m_eye u8v 4099 4099 3".to_string(), "m_identity u8v 4099".to_string(),
+                  format!("triu u8v {} 7", tag_off(&[4099, 4099], 1)), format!("tril i8v {} -3", tag_off(&[3, 5592407], 1)), format!("diag u8v {} -2", tag_off(&[4097], 1)), format!("diag_diag u8v {} 1", tag_off(&[4097], 1)),
+                  "vander u8 m2x5592407 3 none".to_string(), format!("rand u8 4097,4099")] {
+            out(format!("n {l}"));
+        }
+    }
+    let _ = rng;
+}
+
 /// the case stream with the two report lines of the native reference: one at the position of the last evidence sample, one at the end
 fn gen(tier: &str, seed: u64, out: &mut dyn FnMut(String)) {
     let mut lines: Vec<String> = vec![];
@@ -1618,6 +1919,9 @@ fn gen_all(tier: &str, seed: u64, out: &mut dyn FnMut(String)) {
               // a start beyond 2^127, bounds below f64::EPSILON
               "linspace i32 0 10 4 none", "linspace f64 0 10 4 none", "linspace f32 0 10 4 none", "linspace f64 0 10 4 none"] { out(l.to_string()); }
     out(format!("linspace f64 {} {} 5 none", pow10(39), format!("5{}", "0".repeat(39))));
+    // round-5 seeded changes: a span of 2^32 or more with a whole step below 2^32 (an offset i * step taken in 32 bits wraps)
+    for l in ["linspace f64 0 10000000000 11 none", "linspace i64 0 10000000000 11 true", "linspace f64 10000000000 0 10 false", "linspace f64 -3000000000 3000000000 7 true",
+              "arange i64 0 10000000000 1000000000", "arange f64 1 6000000000 1000000000", "arange i64 -3000000000 3000000000 500000000", "arange u64 4294967290 4294967300 1"] { out(l.to_string()); }
     out(format!("geomspace f64 1/{} 1/{} 3 none", pow10(20), pow10(10)));
 
     for ty in TYPES {
@@ -1734,6 +2038,9 @@ fn gen_all(tier: &str, seed: u64, out: &mut dyn FnMut(String)) {
     // ---- robustness streams, part 3: value relations (all-equal-not-identical, constant sources, equal bounds), offsets that wrap
     // modulo 2^64, results above 2^20 elements / sequences above 2^24 points through the harness-native reference (`n` lines)
     gen_streams3(out, &mut rng, thorough);
+    // ---- robustness streams, part 5 (round 5): band sweeps of the sequence constructors (whole bounds / steps of every magnitude, small
+    // counts, bit for bit), dense value pools for the `powf` kernel, impure macro arguments, results above 2^24 elements
+    gen_streams5(out, &mut rng, thorough);
     // ---- seeded random stream beyond the exhaustive scope
     let n_rand = if thorough { 6000 } else { 1200 };
     for _ in 0..n_rand {
@@ -1777,6 +2084,7 @@ fn nontrivial(op: &str, args: &[&str]) -> bool {
     if op.starts_with("n_") { return true; }
     if args.len() < 2 { return false; }
     let a = &args[1..];
+    let op = &op.replace("mi_", "m_")[..];
     let cnt = |s: &str| -> usize { if s.contains(':') || s.starts_with('i') { parse_arr_raw(s).0.iter().product() } else { parse_usize_list(s).iter().product() } };
     match op {
         "full" | "zeros" | "ones" | "rand" | "m_zeros" | "m_ones" | "m_rand" | "m_full" | "full_like" | "zeros_like" | "ones_like" => cnt(a[0]) >= 2,
